@@ -38,6 +38,7 @@
 #include "cppMakeSeq.h"
 #include "cppStructType.h"
 #include "pnotify.h"
+#include "verif_trace.h"
 
 using std::ostream;
 using std::ostringstream;
@@ -887,6 +888,7 @@ hash_function_signature(FunctionRemap *remap) {
     // No other name; we're in the clear.
     _wrappers_by_hash[hash] = remap;
     remap->_hash = hash;
+    VERIF_EVENT("{\"e\":\"Hash\",\"sig\":" << VERIF_Q(remap->_function_signature) << ",\"h5\":" << VERIF_Q(InterrogateBuilder::hash_string(remap->_function_signature, 5)) << ",\"h11\":" << VERIF_Q(InterrogateBuilder::hash_string(remap->_function_signature, 11)) << ",\"assigned\":" << VERIF_Q(remap->_hash) << "}");
     return;
   }
 
@@ -913,6 +915,7 @@ hash_function_signature(FunctionRemap *remap) {
       nout << "Internal error!  Hash " << other_remap->_hash
            << " already appears!\n";
     }
+    VERIF_EVENT("{\"e\":\"HashExtend\",\"sig\":" << VERIF_Q(other_remap->_function_signature) << ",\"hash\":" << VERIF_Q(other_remap->_hash) << ",\"inserted\":" << (inserted ? 1 : 0) << "}");
   }
 
   hash += InterrogateBuilder::hash_string(remap->_function_signature, 11);
@@ -935,6 +938,7 @@ hash_function_signature(FunctionRemap *remap) {
   }
 
   remap->_hash = hash;
+  VERIF_EVENT("{\"e\":\"Hash\",\"sig\":" << VERIF_Q(remap->_function_signature) << ",\"h5\":" << VERIF_Q(InterrogateBuilder::hash_string(remap->_function_signature, 5)) << ",\"h11\":" << VERIF_Q(InterrogateBuilder::hash_string(remap->_function_signature, 11)) << ",\"assigned\":" << VERIF_Q(remap->_hash) << "}");
 }
 
 /**
